@@ -98,35 +98,35 @@ type object struct {
 // Raw is a recorded event with its byte payloads; Finish turns the list into the
 // abstract trace the specification understands.
 type Raw struct {
-	Seq     int
-	Ev      string
-	Inst    string
-	Gen     int
-	Key     string
-	Data    []byte
-	Imm     bool
-	Applied bool
-	OK      bool
-	Found   bool
+	Seq      int
+	Ev       string
+	Inst     string
+	Gen      int
+	Key      string
+	Data     []byte
+	Imm      bool
+	Applied  bool
+	OK       bool
+	Found    bool
 	Conflict bool // upload of different bytes over an existing immutable object
-	Old     []byte
-	New     []byte
-	Sub     int
-	Entry   *Entry
-	Low     bool
-	Source  string
-	Res     string
-	Class   string
-	Idx     int64
-	Ts      int64
-	LeafOK  bool
-	SCT     string // "", "valid", "invalid"
-	Err     string
-	Value   int64
-	Note    string
-	Flags   map[string]bool
-	Strs    map[string]string
-	Subs    []int
+	Old      []byte
+	New      []byte
+	Sub      int
+	Entry    *Entry
+	Low      bool
+	Source   string
+	Res      string
+	Class    string
+	Idx      int64
+	Ts       int64
+	LeafOK   bool
+	SCT      string // "", "valid", "invalid"
+	Err      string
+	Value    int64
+	Note     string
+	Flags    map[string]bool
+	Strs     map[string]string
+	Subs     []int
 }
 
 // World is one scenario's universe: the shared lock store and object store,
@@ -148,23 +148,23 @@ type World struct {
 	clockMode string // "", "stall", "back", "jump"
 	lastClock int64
 
-	Key        *ecdsa.PrivateKey
-	WitnessKey *mldsa.PrivateKey
-	Name       string
-	Dir        string
-	PoolSize   int
+	Key           *ecdsa.PrivateKey
+	WitnessKey    *mldsa.PrivateKey
+	Name          string
+	Dir           string
+	PoolSize      int
 	NotAfterLimit time.Time
 
-	incs    []*Inc
-	byLog   map[*ctlog.Log]*Inc
-	subSeq  int
-	entries map[[32]byte]*Entry
+	incs       []*Inc
+	byLog      map[*ctlog.Log]*Inc
+	subSeq     int
+	entries    map[[32]byte]*Entry
 	altEntries map[[32]byte][]*Entry
-	entSeq  int
-	warm    []byte // checkpoint bytes marking the warm-up tree
-	Quiet bool // warm-up: submissions, outcomes and clock reads are not recorded
-	warmSubs []*Sub
-	S3Discard bool // Discard is a successful no-op (S3 semantics)
+	entSeq     int
+	warm       []byte // checkpoint bytes marking the warm-up tree
+	Quiet      bool   // warm-up: submissions, outcomes and clock reads are not recorded
+	warmSubs   []*Sub
+	S3Discard  bool // Discard is a successful no-op (S3 semantics)
 
 	tasks []*Task
 	Info  map[string]any
@@ -274,15 +274,16 @@ func (w *World) Gate(closed bool) {
 
 // Inc is one incarnation (process lifetime) of a log instance.
 type Inc struct {
-	W      *World
-	Name   string
-	Gen    int
-	Cfg    *ctlog.Config
-	Log    *ctlog.Log
-	dead   bool
-	ctx    context.Context
-	cancel context.CancelFunc
-	Stopped string // class of RunSequencer's return, once it returned
+	W           *World
+	Name        string
+	Gen         int
+	Cfg         *ctlog.Config
+	Log         *ctlog.Log
+	dead        bool
+	ctx         context.Context
+	cancel      context.CancelFunc
+	cacheClosed bool
+	Stopped     string // class of RunSequencer's return, once it returned
 }
 
 // NewInc makes a fresh incarnation of instance name with the world's default
@@ -314,6 +315,14 @@ func (w *World) NewInc(name string) *Inc {
 }
 
 func (inc *Inc) Ctx() context.Context { return inc.ctx }
+
+// CloseCache closes the incarnation's SQLite connections (once).
+func (inc *Inc) CloseCache() {
+	if inc.Log != nil && !inc.cacheClosed {
+		inc.cacheClosed = true
+		inc.Log.CloseCache()
+	}
+}
 
 func (inc *Inc) CachePath() string { return inc.Cfg.Cache }
 
@@ -350,19 +359,15 @@ func (w *World) park(op *Op) Outcome {
 func (w *World) point(l *ctlog.Log, name string) {
 	w.mu.Lock()
 	inc := w.byLog[l]
-	w.mu.Unlock()
-	if inc == nil {
+	if inc == nil || inc.dead {
+		w.mu.Unlock()
 		return
 	}
-	op := &Op{Inc: inc, Kind: "Point", Key: name}
-	if out := w.park(op); out == Dead {
-		return
-	}
-	w.mu.Lock()
-	if !inc.dead {
-		w.emit(&Raw{Ev: "Point", Inst: inc.Name, Gen: inc.Gen, Key: name})
-	}
+	// The hook is called right after the state change it names: the event is
+	// stamped on arrival, before parking.
+	w.emit(&Raw{Ev: "Point", Inst: inc.Name, Gen: inc.Gen, Key: name})
 	w.mu.Unlock()
+	w.park(&Op{Inc: inc, Kind: "Point", Key: name})
 }
 
 // hold parks a HoldApplied operation until cleanup.
@@ -392,7 +397,7 @@ func (b *gatedBackend) Upload(ctx context.Context, key string, data []byte, opts
 		out = Fail
 	}
 	w.mu.Lock()
-	if b.inc.dead {
+	if b.inc.dead && out != HoldApplied {
 		w.mu.Unlock()
 		return errDead
 	}
@@ -516,7 +521,7 @@ func (b *gatedLock) Replace(ctx context.Context, old ctlog.LockedCheckpoint, new
 		return nil, errDead
 	}
 	w.mu.Lock()
-	if b.inc.dead {
+	if b.inc.dead && out != HoldApplied {
 		w.mu.Unlock()
 		return nil, errDead
 	}
@@ -552,7 +557,7 @@ func (b *gatedLock) Create(ctx context.Context, id [32]byte, new []byte) error {
 		return errDead
 	}
 	w.mu.Lock()
-	if b.inc.dead {
+	if b.inc.dead && out != HoldApplied {
 		w.mu.Unlock()
 		return errDead
 	}
@@ -595,6 +600,7 @@ func (w *World) Pending() []*Op {
 			out = append(out, op)
 		}
 	}
+	sort.SliceStable(out, func(i, j int) bool { return out[i].String() < out[j].String() })
 	return out
 }
 
@@ -765,9 +771,7 @@ func (w *World) Cleanup() {
 	time.Sleep(time.Minute)
 	w.Settle()
 	for _, inc := range w.incs {
-		if inc.Log != nil {
-			inc.Log.CloseCache()
-		}
+		inc.CloseCache()
 	}
 }
 
